@@ -43,6 +43,10 @@ def check_twin(ctx, backend, p):
         ok = type(t) is Y.URL
         ctx.check(ok, "twin is not a URL", observed=type(t).__name__, expected="URL", entry=name[:6])
         d = diff(a, b)
+        if not d and name in ("pickle2", "copy"):
+            # the same value observed in the opposite accessor order on another cache-free twin
+            c = observe(pickle.loads(pickle.dumps(u)), reverse=True)
+            d = diff(a, c)
         if d:
             ctx.check(False, "accessor values differ between a URL and its cache-free twin", observed={"fields": d, "raw_authority": u._netloc, "route": p["ctor"][0], "nops": len(p.get("ops", ()))},
                       expected="identical observations", entry=name[:6])
